@@ -370,7 +370,13 @@ def run(rep, ctx):
         if tag in seen_h:
             continue
         seen_h.add(tag)
-        subs = [n for n in g.walk() if n["k"] == "CXXOperatorCallExpr" and n.get("op") == "[]" and ".first" in render(call_args(n)[1])]
+        def _ix_first(n_):
+            """the `.first` member (the entry's item index) the subscript's index is computed from, looking through locals"""
+            for x_ in walk(expand_locals(g, call_args(n_)[1])):
+                if x_["k"] == "MemberExpr" and x_.get("name") == "first":
+                    return x_
+            return None
+        subs = [n for n in g.walk() if n["k"] == "CXXOperatorCallExpr" and n.get("op") == "[]" and _ix_first(n) is not None]
         vec = [v for v in g.walk() if v["k"] == "VarDecl" and v.get("name") == "values" and "vector" in (v.get("ct") or v.get("t") or "")]
         size_txt = None
         if len(vec) == 1 and kids(vec[0]):
@@ -381,10 +387,7 @@ def run(rep, ctx):
         if not subs:
             bad.append("no subscript by the entry's index found")
         for n in subs:
-            ix = None
-            for x in walk(call_args(n)[1]):
-                if x["k"] == "MemberExpr" and x.get("name") == "first":
-                    ix = txt(x)
+            ix = txt(_ix_first(n))
             fa = norm_facts(g, n, canon=True)
             lo = (ix + "<0", False) in fa or ("0<=" + ix, True) in fa
             hi = any(t == ix + "<" + size_txt and pol for t, pol in fa) or any(t == size_txt + "<=" + ix and not pol for t, pol in fa) if size_txt else False
